@@ -2,5 +2,6 @@ SPECIFICATION Spec
 CONSTANT Depth = 3
 CONSTANT DcShift = "0"
 CONSTANT Hook = TRUE
+CONSTANT Side = "client"
 INVARIANT Emit
 CHECK_DEADLOCK FALSE
